@@ -302,11 +302,28 @@ def r13_3(ctx: Ctx):
             ok = len(a) >= 2 and a[1] is not None and _is_results(ctx, p, a[1], res)
             ctx.check(ok, rid, sd.short, sd.loc(x.node), 'OnMethodStop receives the current result',
                       'OnMethodStop does not receive GetResults()', key=f'{rid}::{sd.short}::stop-result')
+            undef = [C.fmt(v) for v in list(x.d['args']) + list((x.d.get('kwargs') or {}).values())
+                     if _undefined_name(v)]
+            ctx.check(not undef, rid, sd.short, sd.loc(x.node), 'every argument of OnMethodStop is defined on the path',
+                      f'OnMethodStop is called with {undef}, a name that is not assigned on this path: with a '
+                      f'listener attached Solve raises NameError instead of returning the result',
+                      key=f'{rid}::{sd.short}::stop-undefined-argument')
             ok2 = all(evs.index(x) > i for i in refs)
             ctx.check(ok2, rid, sd.short, sd.loc(x.node), 'OnMethodStop comes after the local refinement',
                       'OnMethodStop is delivered before the local refinement changes the result',
                       key=f'{rid}::{sd.short}::stop-after-refine')
     ctx.floor(rid, 'returning paths of the solve driver', ns, 2)
+
+
+def _undefined_name(v) -> bool:
+    """A value that is a local read before any assignment on the path, or a name that resolves to nothing."""
+    import builtins
+    a = v.single_atom() if isinstance(v, RF) else None
+    if not (isinstance(a, tuple) and len(a) == 2 and isinstance(a[1], str)):
+        return False
+    if a[0] == 'unbound':
+        return True
+    return a[0] in ('builtin', 'global?') and not hasattr(builtins, a[1])
 
 
 def _loop_over_listeners(ctx: Ctx, f: FuncInfo, node) -> bool:
